@@ -771,7 +771,7 @@ def canonical_range(f):
     for n in walk(ast):
         if n["k"] == "VarDecl" and n["c"] and n["c"][0] is not None:
             calls = [x for x in walk(n["c"][0]) if x["k"] in ("CXXOperatorCallExpr", "CallExpr")]
-            if calls and n["ty"] == "unsigned int":
+            if calls and n["ty"].replace("const ", "").strip() == "unsigned int":
                 rngvars[n["name"]] = (0, (1 << 32) - 1)
 
     def irange(n):
@@ -784,6 +784,21 @@ def canonical_range(f):
             return (c, c)
         if k == "DeclRefExpr" and n["name"] in rngvars:
             return rngvars[n["name"]]
+        if k == "DeclRefExpr" and n["name"] in locals_ and "int" in n.get("ty", ""):
+            return irange(locals_[n["name"]])
+        if k == "ConditionalOperator":
+            c, a, b = strip(n["c"][0]), n["c"][1], n["c"][2]
+            ia, ib = irange(a), irange(b)
+            if c["k"] == "BinaryOperator" and c["op"] in ("<", "<=") and \
+                    show(c["c"][0]) == show(a) and show(c["c"][1]) == show(b):
+                return (min(ia[0], ib[0]), min(ia[1], ib[1]))      # min(a, b)
+            if c["k"] == "BinaryOperator" and c["op"] in (">", ">=") and \
+                    show(c["c"][0]) == show(b) and show(c["c"][1]) == show(a):
+                return (min(ia[0], ib[0]), min(ia[1], ib[1]))
+            return (min(ia[0], ib[0]), max(ia[1], ib[1]))
+        if k == "CallExpr" and n.get("callee") in (C + "min", "std::min"):
+            ia, ib = irange(n["c"][1]), irange(n["c"][2])
+            return (min(ia[0], ib[0]), min(ia[1], ib[1]))
         if k == "CXXStaticCastExpr":
             lo, hi = irange(n["c"][0])
             bits = 64 if "long long" in n["ty"] else 32
